@@ -14,24 +14,33 @@ Open Scope list_scope.
 
 Definition spec_prefix (l : lang) (popt : str) : str := match l with LC => popt | _ => [] end.
 
+(* the words of a prefix ("my_lib_" and "my_lib" both give [my; lib]) *)
+Definition spec_prefix_words (P : str) : list str := filter nonempty (words P).
+
 Definition spec_def (l : lang) (popt : str) (k : kind) (encl : list str) (n : str) : str :=
   let P := spec_prefix l popt in
   match k with
   | KConstant => upper P ++ n
   | KAlias | KMessage =>
       match l with
-      | LC => List.concat (map cap (prefix_words P) ++ encl ++ [n])
+      | LC => List.concat (map capw (spec_prefix_words P) ++ encl ++ [n])
       | LGo => List.concat (encl ++ [n])
       | LPy => join_us (encl ++ [n])
       end
   | KEnum =>
       match l with
-      | LC => List.concat (map cap (prefix_words P) ++ encl ++ [n])
+      | LC => List.concat (map capw (spec_prefix_words P) ++ encl ++ [n])
       | _ => join_us (encl ++ [n])
       end
-  | KEnumField => upper P ++ join_us (map upper (flat_map humps encl) ++ words n)
+  | KEnumField =>
+      join_us (map upper (spec_prefix_words P) ++ map upper (flat_map humps encl) ++ words n)
   | KMessageField => match l with LGo => List.concat (map cap (words n)) | _ => n end
   end.
+
+(* prefixes for which the documented rule is unambiguous: those of the theorems (every word
+   followed by "_") and the open ones of NamesSpec.is_prefix_open *)
+Definition spec_prefix_ok (P : str) : bool :=
+  is_prefix P || is_prefix_open P || has_digit P   (* digits: left to the known-finding class *).
 
 Definition spec_tref (l : lang) (t : tref) : option str :=
   match tref_named t with
@@ -142,6 +151,20 @@ Section SpecPerDefinition.
     end.
 End SpecPerDefinition.
 
+Fixpoint tref_prefix_ok (t : tref) : bool :=
+  match t with
+  | TBase => true
+  | TNamed _ popt _ _ _ => spec_prefix_ok popt
+  | TArray e => tref_prefix_ok e
+  end.
+Fixpoint decl_prefixes_ok (d : decl) : bool :=
+  match d with
+  | DConst _ | DEnum _ _ => true
+  | DAlias _ t => tref_prefix_ok t
+  | DMessage _ nested fields =>
+      forallb decl_prefixes_ok nested && forallb (fun f => tref_prefix_ok (f_type f)) fields
+  end.
+
 Record ident_result := {
   ir_model_missing : list N;      (* indices (in proto_idents) the output does not declare *)
   ir_extra : list N;              (* indices (in the observed list) the model does not predict *)
@@ -149,7 +172,8 @@ Record ident_result := {
   ir_file_spec : bool;            (* output file name = <stem>_bp<ext> *)
   ir_spec_bad : list string;      (* definitions whose documented names are missing, NOT explained *)
   ir_spec_known : list string;    (* ... explained by the known finding digit-names *)
-  ir_in_class : bool              (* all names of the schema are in the theorems' languages *)
+  ir_in_class : bool;             (* all names of the schema are in the theorems' languages *)
+  ir_prefix_spec : bool           (* the prefixes involved are ones the documented rule covers *)
 }.
 
 Definition check_idents (l : lang) (opt : bool) (p : proton) (observed : list ident)
@@ -162,7 +186,8 @@ Definition check_idents (l : lang) (opt : bool) (p : proton) (observed : list id
      ir_file_spec := existsb (str_eqb (spec_out_filename stem ext)) files;
      ir_spec_bad := map (fun x => string_of_list_ascii (fst x)) (filter (fun x => negb (snd x)) bad);
      ir_spec_known := map (fun x => string_of_list_ascii (fst x)) (filter (fun x => snd x) bad);
-     ir_in_class := proton_ok p |}.
+     ir_in_class := proton_ok p;
+     ir_prefix_spec := spec_prefix_ok (p_prefix p) && forallb decl_prefixes_ok (p_decls p) |}.
 
 (* observed identifiers arrive as text, one per line: <kind letter>|<owner>|<name> *)
 Definition decode_ident (line : str) : ident :=
